@@ -257,10 +257,46 @@ def handle0 (toks : List String) : Option String :=
     | none => some "bad-op"
   | _ => none
 
+/-- variable-mock lane: `c19.v <cfg> <var> <op> ; ...`  var: vp/up (*node, nil before), vq/uq (*node, n0 before), vi/ui (int 7) -/
+def varInitial (var : String) : Option (Val × Bool) :=
+  match var with
+  | "vp" => some (nilPtr, true) | "up" => some (nilPtr, true)
+  | "vq" => some (.atom { kind := .ptr, isNil := false, tok := "n0" }, true) | "uq" => some (.atom { kind := .ptr, isNil := false, tok := "n0" }, true)
+  | "vi" => some (intVal 7, false) | "ui" => some (intVal 7, false)
+  | _ => none
+
+def parseVarOp (isPtr : Bool) (ws : List String) : Option VarOp :=
+  let val (t : String) : Option Val := if isPtr then parseNodeTok t else (parseIntTok t).map intVal
+  match ws with
+  | ["set", t] => (val t).map VarOp.set
+  | ["apply", t] => (val t).map VarOp.apply
+  | ["reset"] => some .reset
+  | ["read"] => some .read
+  | ["dbg", "on"] => some (.dbg .on)
+  | ["dbg", "off"] => some (.dbg .off)
+  | ["dbg", "tron"] => some (.dbg .tron)
+  | ["dbg", "troff"] => some (.dbg .troff)
+  | _ => none
+
+def handleVar (toks : List String) : Option String :=
+  match toks with
+  | "c19.v" :: cfg :: var :: rest =>
+    match parseCfg cfg, varInitial var with
+    | some c, some (v0, isPtr) =>
+      match (splitOps rest []).mapM (parseVarOp isPtr) with
+      | some ops =>
+        let (ts, s) := varRun (varInit c v0) ops
+        some ("T=" ++ joinWith "|" ts ++ " W=- L=" ++ toString s.log.length)
+      | none => some "bad-op"
+    | _, _ => some "bad-op"
+  | "c19.v" :: _ => some "bad-op"
+  | _ => none
+
 /-- `c19.h` = the same scenarios, replayed in a process whose log file cannot be opened (the model has no file) -/
 def handle (toks : List String) : Option String :=
   match toks with
   | "c19.h" :: rest => handle0 ("c19.s" :: rest)
+  | "c19.v" :: _ => handleVar toks
   | _ => handle0 toks
 
 end Drv.C19
